@@ -194,7 +194,7 @@ PROPS = {
         rule=("owned mode: 2..5 writers with payloads of 1..4000 bytes (one to four frames) and a choice list of 4n..6n entries; free mode: repetitions with 2..8 writers x 3..7 writes each, every second one with a keep-alive ticker. "
               "Non-trivial: at least 2 writers had entered the write path before the first of them completed. Distinct by (payload lengths, choice list)."),
         assumptions=["writers use Connection.Write (the path of responses, notifications and keep-alives)"],
-        essential_classes=["writers=2", "writers=5", "multi-frame-payload", "payload>8192", "free:keep-alive", "regress", "transport:5-notifiers+requests", "session-switch:two-writers"],
+        essential_classes=["writers=2", "writers=5", "multi-frame-payload", "payload>8192", "free:keep-alive", "regress", "transport:5-notifiers+requests", "session-switch:two-writers", "free:peer-sending-meanwhile"],
         jobs=[
             dict(test="TestC08Regress", kind="plain"),
             dict(test="TestC08Owned", kind="rapid", checks={Q: 40, T: 1200}, shards=16),
